@@ -6,7 +6,7 @@
     whether two spellings name the same chain is decided here by [String.eqb], not by the harness. *)
 From Coq Require Import String Ascii.
 From Coq Require Import List ZArith NArith Bool.
-From Paloma Require Import Base.Corr Base.Num Valset.Snapshot Evm.Compass.
+From Paloma Require Import Base.Corr Base.Num Valset.Snapshot Valset.Worthy Evm.Compass.
 Import ListNotations.
 Open Scope Z_scope.
 
@@ -117,7 +117,10 @@ Definition op_of (t : tbl) (h : hop) : op :=
 
 Definition pre_ok (t : tbl) (st : state) (h : hop) : bool :=
   match h with
-  | HBuild created _ => snap_eqb (create st) (mk_snap t created)
+  | HBuild created stored =>
+      (* createNewSnapshot's result, and TriggerSnapshotBuild stored it exactly when the model's
+         isNewSnapshotWorthy says so (nothing about the build is taken from the implementation) *)
+      snap_eqb (create st) (mk_snap t created) && Bool.eqb stored (build_verdict st)
   | HSetOnChain id _ ok => Bool.eqb ok (match find_snapshot st id with Some _ => true | None => false end)
   | _ => true
   end.
